@@ -76,6 +76,18 @@ def hid_scenarios(tier, seed):
               "tail_sends": 300, "horizon": 60, "settle": 30, "returns": returns, "outage": outage, "repeat": repeat, "tag": "hid:%d" % k,
               "sequence_exceptions": exceptions}
         scs.append(sc)
+    # a device-type command sent with exceptions off, the gateway lost at every point of its two frames and back after
+    # half a second: the transparent retry must put the whole unit (prefix + command) on the wire again
+    for drv in ("tridonic", "hasseb"):
+        for key in ("qdt6", "cfgdt6"):
+            for kind in ("after_write", "after_report"):
+                for n in range(1, 8):
+                    for act in ("lose", "lose_keep"):
+                        scs.append({"driver": drv, "exceptions": False, "reconnect_limit": None, "reconnect_interval": 1,
+                                    "callers": [{"name": "A", "mode": "send", "unit": [[key, 3], ["q16", 4]], "exceptions": False}],
+                                    "triggers": [[kind, n, act]], "time_triggers": [], "loss_mode": "eof", "first_seq": 17,
+                                    "release_plan": [1] * 12, "tail_sends": 20, "horizon": 60, "settle": 5, "returns": True,
+                                    "outage": 0.5, "repeat": False, "tag": "dt-retry", "sequence_exceptions": False})
     # cancellation at every await point of a single send, then 300 sends
     for drv in ("tridonic", "hasseb"):
         for key in ("q16", "cfg", "qdt6", "dapc"):
@@ -181,7 +193,7 @@ def run(tier, seed, replay=None):
                     "scenarios in which the device was actually lost, a caller was actually cancelled, or the serial "
                     "gateway stayed silent; every run ends with the device back and 300 (serial: 5-20) further sends")
         out.extra["by_tag"] = {t: sum(1 for s_ in scs if s_["tag"].split(":")[0] == t) for t in
-                               ("hid", "cancel", "silent-confirm", "silent-answer", "serial-cancel")}
+                               ("hid", "cancel", "dt-retry", "silent-confirm", "silent-answer", "serial-cancel")}
         out.extra["expect_failed_runs"] = sum(s_["params"]["expect_failed"] for s_ in slim)
         byid = {r["id"]: r for r in recs}
         s0 = recs[1]
